@@ -33,14 +33,17 @@ def package_lints(ctx):
 
 
 def transforms_for(ctx, out=print):
-    """reformat / rename-locals / pad every module (in memory) and require this property's verdict to be unchanged."""
+    """Twelve whole-tree behaviour-preserving transforms (selftest/transforms.py), each applied to every module in memory:
+    this property's verdict must not change."""
     from selftest.transforms import read_sources, transform
     prop = ctx.prop
     mod = importlib.import_module("rules.%s" % prop.lower())
     known = load_known()
     base_new = len([f for f in ctx.findings if match_known(f, known) is None])
     srcs = read_sources(ctx.prog.root)
-    for kind in ("reformat", "rename", "pad"):
+    kinds = ("reformat", "rename", "pad", "hoist", "invert", "nest", "unnest", "splitand", "extend", "retlocal", "swapeq",
+             "earlycontinue")
+    for kind in kinds:
         ov = {}
         for rel, src in srcs.items():
             try:
@@ -60,4 +63,4 @@ def transforms_for(ctx, out=print):
                 kind, prop, base_new, new, [(f.rule, f.where) for f in c2.findings][:4]))
         ctx.ok("selftest", "whole-tree transform `%s` (%d modules): verdict of %s unchanged, %d obligations" % (
             kind, len(ov), prop, len(c2.obligations)), "")
-    out("transforms %s: reformat/rename/pad keep the verdict" % prop)
+    out("transforms %s: %s keep the verdict" % (prop, "/".join(kinds)))
